@@ -53,14 +53,51 @@ def unravel(k, shape):
     return list(reversed(idx))
 
 
+def flat_index(st, idx):
+    """position, in the operand's flat value list (C order of its logical dims/shape), of the element that belongs to
+    the result element with the per-dimension indices `idx` ({dim label: index}): matched BY DIMENSION LABEL, so the
+    dim order / memory layout of the operand does not matter"""
+    dims = st.get('dims') or []
+    if not dims:
+        return 0
+    shape = st.get('shape')
+    if shape is None:          # observation without a shape: one dim
+        return idx.get(dims[0], 0)
+    k = 0
+    for d, s in zip(dims, shape):
+        k = k * int(s) + idx.get(d, 0)
+    return k
+
+
+def is_nd(gres):
+    """does any operand of this observed group have two or more dims?"""
+    return any(len(st.get('dims') or []) >= 2 for st in gres.get('operands', {}).values())
+
+
+def layout_of(greq, order):
+    """dims / shape / memory layout of the operands of a request group (for descriptions and replays)"""
+    out = {}
+    for n in order:
+        sp = greq['operands'][n]
+        if 'dims' in sp:
+            out[n] = {'dims': sp['dims'], 'shape': sp['shape'], 'layout': sp.get('layout') or 'contiguous'}
+        else:
+            out[n] = {'dims': [sp['dim']] if sp.get('dim') else [], 'shape': [len(sp['values'])] if sp.get('dim') else []}
+    return out
+
+
 def element_cases(kname, order, greq, gres, tol, get=None):
     """-> list of (coq term, python description) for every output element of one group.
     `order`: operand names in the model's argument order."""
     out = []
     ops = gres['operands']
+    nd = is_nd(gres)
     if 'error' in gres:
         ins = '[' + '; '.join(inp_term(ops[n], 0) for n in order) + ']'
         desc = {'kernel': kname, 'operands': {n: describe(ops[n], 0) for n in order}, 'impl': 'raises ' + gres['error']}
+        if nd:
+            desc['arrays'] = layout_of(greq, order)
+            desc['group_operands'] = {n: greq['operands'][n] for n in order}
         out.append((f'(mkc "{kname}" {ins} (OutErr "{gres["error"]}") {tol})', desc))
         return out
     res = gres['result']
@@ -75,7 +112,7 @@ def element_cases(kname, order, greq, gres, tol, get=None):
         d_ops = {}
         for n in order:
             st = ops[n]
-            i = idx.get(st['dims'][0], 0) if st['dims'] else 0
+            i = flat_index(st, idx)
             ins_terms.append(inp_term(st, i))
             d_ops[n] = describe(st, i)
         ot = out_term(res, k)
@@ -83,8 +120,59 @@ def element_cases(kname, order, greq, gres, tol, get=None):
             continue
         desc = {'kernel': kname, 'operands': d_ops,
                 'impl': {'value': fmt(res['values'][k]), 'unit': res['unit']['name'], 'dtype': res['dtype']}}
+        if nd:
+            desc['element'] = idx
+            desc['result_dims'] = res['dims']
+            desc['arrays'] = layout_of(greq, order)
+            desc['group_operands'] = {n: greq['operands'][n] for n in order}
         out.append((f'(mkc "{kname}" [{"; ".join(ins_terms)}] {ot} {tol})', desc))
     return out
+
+
+# ------------------------------------------------ whole-array cases: Coq itself matches elements by dim label
+def cstr(s):
+    return '"' + str(s).replace('"', '""') + '"'
+
+
+def arr_term(st):
+    """an observed operand as a Coq `arr` (coq-run/C01/Corr.v): labelled dims, shape, flat values, unit, dtype"""
+    dims = '[' + '; '.join(cstr(d) for d in st.get('dims') or []) + ']'
+    shape = '[' + '; '.join(f'{int(n)}%nat' for n in st.get('shape') or []) + ']'
+    vals = '[' + '; '.join(q(v) for v in st['values']) + ']'
+    return (f'(mkarr {dims} {shape} {vals} {q(st["unit"]["mult"])} {dims_term(st["unit"]["dims"])} '
+            f'{DT[st["dtype"]]})')
+
+
+def array_case(kname, order, greq, gres, tol):
+    """-> (coq term `acase`, [description per result element]) for one observed group, or None when the result cannot
+    be written down (not a numeric Variable).  The element matching is NOT done here: the term holds the arrays."""
+    ops = gres['operands']
+    ins = '[' + '; '.join(arr_term(ops[n]) for n in order) + ']'
+    lay = layout_of(greq, order)
+    gops = {n: greq['operands'][n] for n in order}
+    if 'error' in gres:
+        desc = {'kernel': kname, 'operands': {n: describe(ops[n], 0) for n in order}, 'impl': 'raises ' + gres['error'],
+                'error_text': gres.get('error_text'), 'arrays': lay, 'group_operands': gops}
+        return f'(mkac "{kname}" {ins} (AOutErr "{gres["error"]}") {tol})', [desc]
+    res = gres['result']
+    if res.get('unit') is None or 'shape' not in res:
+        return None
+    n_el = 1
+    for s in res['shape']:
+        n_el *= s
+    outs, descs = [], []
+    for k in range(n_el):
+        ot = out_term(res, k)
+        if ot is None:
+            return None
+        outs.append(ot)
+        idx = dict(zip(res['dims'], unravel(k, res['shape'])))
+        descs.append({'kernel': kname, 'operands': {n: describe(ops[n], flat_index(ops[n], idx)) for n in order},
+                      'impl': {'value': fmt(res['values'][k]), 'unit': res['unit']['name'], 'dtype': res['dtype']},
+                      'element': idx, 'result_dims': res['dims'], 'arrays': lay, 'group_operands': gops})
+    rd = '[' + '; '.join(cstr(d) for d in res['dims']) + ']'
+    rs = '[' + '; '.join(f'{int(n)}%nat' for n in res['shape']) + ']'
+    return f'(mkac "{kname}" {ins} (AOut {rd} {rs} [{"; ".join(outs)}]) {tol})', descs
 
 
 def fmt(v):
